@@ -319,6 +319,35 @@ pub fn exec(rest: &str, out: &mut Out) -> (String, bool) {
             }
         }
     }
+    // the object (and its index) is a value: moved to another thread it answers every key query as
+    // here, and a further mutation there behaves like on the list (an index tied to per-thread or
+    // per-process state would not)
+    {
+        let spec2 = spec.clone();
+        let keys2 = keys.clone();
+        let moved = o.clone();
+        let verdict = std::thread::spawn(move || {
+            let mut o = moved;
+            let mut bad: Vec<String> = Vec::new();
+            for k in keys2.iter().chain(std::iter::once(&"~absent~".to_string())) {
+                let want = positions(&spec2, k);
+                if o.indexes_of(k.as_str()).collect::<Vec<_>>() != want || o.contains_key(k.as_str()) != !want.is_empty() || o.index_of(k.as_str()) != want.first().copied()
+                    || o.get(k.as_str()).count() != want.len() { bad.push(format!("queries for key {:?}", k.chars().take(20).collect::<String>())); }
+            }
+            if let Some(k) = keys2.first() {
+                let n_before = positions(&spec2, k).len();
+                let removed = o.remove(k.as_str()).count();
+                if removed != n_before || o.contains_key(k.as_str()) || o.len() + n_before != spec2.len() { bad.push(format!("remove of key {:?} on the other thread", k.chars().take(20).collect::<String>())); }
+                let fresh = o.push(k.as_str().into(), Value::Null);
+                if !fresh || o.index_of(k.as_str()) != Some(o.len() - 1) { bad.push("push after the remove on the other thread".into()); }
+            }
+            bad
+        }).join();
+        match verdict {
+            Ok(bad) => out.oracle(bad.is_empty(), "an object moved to another thread answers key queries and takes mutations exactly as here", || bad.join("; ")),
+            Err(_) => out.oracle(false, "an object moved to another thread can be queried without panicking", || String::new()),
+        }
+    }
     out.count_n("ops", ops.len() as u64);
     (parts.join(" | "), dups || ops.len() > 2)
 }
